@@ -732,8 +732,22 @@ var (
 	e2eRuns int
 )
 
+// draws of the e2e runs: the gate always lets the jitter through (0), the amount is the largest
+// in range, the sign is +; recorded for the Coq case
+var (
+	e2eLastD  int64
+	e2eResets []int64
+)
+
 func killHooks() *c2.VerifC19Hooks {
 	return &c2.VerifC19Hooks{
+		RandN: func(n int) uint32 { return 0 },
+		Int63n: func(n int64) int64 {
+			fakeMu.Lock()
+			defer fakeMu.Unlock()
+			e2eLastD = n - 1
+			return n - 1
+		},
 		Now: func(s *c2.Session) time.Time {
 			fakeMu.Lock()
 			defer fakeMu.Unlock()
@@ -745,6 +759,7 @@ func killHooks() *c2.VerifC19Hooks {
 			defer fakeMu.Unlock()
 			curSess = s
 			fakeNow = fakeNow.Add(w)
+			e2eResets = append(e2eResets, int64(w))
 			return 150 * time.Microsecond
 		},
 		Sleep: func(s *c2.Session, d time.Duration) {
@@ -779,6 +794,7 @@ func runScenario(sc *scenT, class string) {
 	}
 	old := local.UUID
 	b := rng.Bytes(len(local.UUID))
+	b[0] |= 1 // device.ID.Read treats an ID with a zero first byte as a read error
 	copy(local.UUID[:], b)
 	ctx, cancel := context.WithCancel(context.Background())
 	s, err := c2.ConnectContext(ctx, logx.NOP, p)
@@ -853,10 +869,292 @@ func runScenario(sc *scenT, class string) {
 	out.Add(fmt.Sprintf("CKill %s %s %s %s", sc.K.coq(), vh.Z(sc.T0), vh.List(its), vh.List(evc)), class, len(events) >= 2, d)
 }
 
+// ------------------------------------------------------------------ Profile swap in the real listen loop
+
+// swapProf is a Profile whose Sleep()/Jitter() answers are free (cfg.Static maps "unset" to the
+// defaults; a built cfg profile answers 0 / -1 for unset).
+type swapProf struct {
+	cfg.Static
+	sl time.Duration
+	j  int8
+}
+
+func (p swapProf) Sleep() time.Duration { return p.sl }
+func (p swapProf) Jitter() int8         { return p.j }
+
+type setT struct {
+	Sleep  int64
+	Jitter int
+	Kill   *int64
+	Work   *ruleT
+}
+
+func (v setT) coq() string {
+	kill, work := "None", "None"
+	if v.Kill != nil {
+		kill = "(Some " + vh.Z(*v.Kill) + ")"
+	}
+	if v.Work != nil {
+		work = "(Some " + v.Work.coq() + ")"
+	}
+	return fmt.Sprintf("(mkS %s %d %s %s)", vh.Z(v.Sleep), v.Jitter, kill, work)
+}
+func (v setT) desc() map[string]interface{} {
+	m := map[string]interface{}{"sleep_ns": v.Sleep, "jitter": v.Jitter}
+	if v.Kill != nil {
+		m["kill_ns_since_2023-01-01"] = *v.Kill
+	}
+	if v.Work != nil {
+		m["work"] = v.Work.String()
+	}
+	return m
+}
+func readSettings(s *c2.Session) setT {
+	sl, j, k, w := c2.VerifC19Settings(s)
+	v := setT{Sleep: int64(sl), Jitter: int(j)}
+	if !k.IsZero() {
+		v.Kill = i64p(absNs(k))
+	}
+	if w != nil {
+		v.Work = &ruleT{int(w.Days), int(w.StartHour), int(w.StartMin), int(w.EndHour), int(w.EndMin)}
+	}
+	return v
+}
+
+// what the pushed Profile answers
+type pvalT struct {
+	Sleep    int64 // Sleep(): <= 0 = not set
+	Jitter   int   // Jitter(): -1 = not set
+	KillSet  bool  // KillDate() ok
+	Kill     *int64
+	WorkSet  bool
+	Work     ruleT
+}
+
+func (v pvalT) coq() string {
+	kill, work := "None", "None"
+	if v.KillSet {
+		if v.Kill != nil {
+			kill = "(Some (Some " + vh.Z(*v.Kill) + "))"
+		} else {
+			kill = "(Some None)"
+		}
+	}
+	if v.WorkSet {
+		work = "(Some " + v.Work.coq() + ")"
+	}
+	return fmt.Sprintf("(mkP %s %s %s %s)", vh.Z(v.Sleep), vh.Z(int64(v.Jitter)), kill, work)
+}
+func (v pvalT) desc() map[string]interface{} {
+	m := map[string]interface{}{"Sleep()_ns": v.Sleep, "Jitter()": v.Jitter, "KillDate()_ok": v.KillSet, "WorkHours()_non_nil": v.WorkSet}
+	if v.Kill != nil {
+		m["kill_ns_since_2023-01-01"] = *v.Kill
+	}
+	if v.WorkSet {
+		m["work"] = v.Work.String()
+	}
+	return m
+}
+
+type swapConn struct {
+	pv       pvalT
+	n        int
+	old, got setT
+	resetsAt [8]int
+	over     bool
+}
+
+func (c *swapConn) profile() cfg.Profile {
+	p := swapProf{Static: cfg.Static{C: c, H: srvAddr}, sl: time.Duration(c.pv.Sleep), j: int8(c.pv.Jitter)}
+	if c.pv.KillSet {
+		var k time.Time
+		if c.pv.Kill != nil {
+			k = epoch0.Add(time.Duration(*c.pv.Kill))
+		}
+		p.Static.K = &k
+	}
+	if c.pv.WorkSet {
+		w := c.pv.Work.wh()
+		p.Static.A = &w
+	}
+	return p
+}
+
+// Connect #0 initial, #1 stores the new Profile in s.swap (as the MvProfile handler does), #2 is
+// the first Connect after the swap (settings are read), #3 calls Close(), #4 is the notice.
+func (c *swapConn) Connect(x context.Context, a string) (net.Conn, error) {
+	fakeMu.Lock()
+	idx, s := c.n, curSess
+	c.n++
+	if idx < len(c.resetsAt) {
+		c.resetsAt[idx] = len(e2eResets)
+	}
+	fakeMu.Unlock()
+	switch {
+	case idx == 1 && s != nil:
+		c.old = readSettings(s)
+		c2.VerifC19SetSwap(s, c.profile())
+	case idx == 2 && s != nil:
+		c.got = readSettings(s)
+	case idx == 3 && s != nil:
+		c2.VerifC19CloseNoWait(s)
+	case idx > 4:
+		c.over = true
+		if s != nil {
+			c2.VerifC19CloseNoWait(s)
+		}
+	}
+	return com.TCP.Connect(x, a)
+}
+
+func runSwapScenario(oldSleep int64, oldJ int, oldKill *int64, oldWork *ruleT, pv pvalT, t0 int64, class string) {
+	e2eRuns++
+	fakeMu.Lock()
+	fakeNow, curSess, e2eResets, e2eLastD = epoch0.Add(time.Duration(t0)), nil, nil, 0
+	fakeMu.Unlock()
+	cc := &swapConn{pv: pv}
+	dbg("swap scenario old jitter %d profile %+v", oldJ, pv)
+	p := cfg.Static{C: cc, H: srvAddr, S: time.Duration(oldSleep), J: int8(oldJ)}
+	if oldKill != nil {
+		k := epoch0.Add(time.Duration(*oldKill))
+		p.K = &k
+	}
+	if oldWork != nil {
+		w := oldWork.wh()
+		p.A = &w
+	}
+	old := local.UUID
+	ub := rng.Bytes(len(local.UUID))
+	ub[0] |= 1
+	copy(local.UUID[:], ub)
+	ctx, cancel := context.WithCancel(context.Background())
+	s, err := c2.ConnectContext(ctx, logx.NOP, p)
+	local.UUID = old
+	if err != nil {
+		cancel()
+		panic("harness: swap scenario: connect: " + err.Error())
+	}
+	select {
+	case <-s.Done():
+	case <-time.After(20 * time.Second):
+		cancel()
+		panic("harness: swap scenario did not end within 20 s")
+	}
+	cancel()
+	fakeMu.Lock()
+	resets := append([]int64(nil), e2eResets...)
+	lastD := e2eLastD
+	fakeMu.Unlock()
+	if cc.n < 4 || cc.over {
+		panic(fmt.Sprintf("harness: swap scenario made %d connects", cc.n))
+	}
+	// the delay of the first wait() that ran with the new settings: the last timer armed
+	// between Connect #2 and Connect #3 (earlier ones in that wait are work-hours waits)
+	if cc.resetsAt[3] <= cc.resetsAt[2] {
+		panic("harness: swap scenario: no timer armed after the swap")
+	}
+	delay := resets[cc.resetsAt[3]-1]
+	d := int64(0)
+	if cc.got.Jitter >= 1 && cc.got.Jitter <= 100 && cc.got.Sleep > msNs {
+		d = lastD
+	}
+	desc := map[string]interface{}{"before_swap": cc.old.desc(), "profile": pv.desc(), "after_swap": cc.got.desc(),
+		"next_delay_ns": delay, "draws": map[string]int64{"gate": 0, "amount_ms": d, "sign": 0}}
+	// oracle: the values in force after the swap are the Profile's where it sets them ...
+	wantSleep, wantJ := cc.old.Sleep, cc.old.Jitter
+	if pv.Sleep > 0 {
+		wantSleep = pv.Sleep
+	}
+	if pv.Jitter >= 0 && pv.Jitter <= 100 {
+		wantJ = pv.Jitter
+	}
+	if cc.got.Sleep != wantSleep {
+		out.Fail("after a Profile swap the sleep in force is not the Profile's sleep", "profile-swap-sleep-not-applied", desc)
+	}
+	if cc.got.Jitter != wantJ {
+		k := "profile-swap-jitter-not-applied"
+		if pv.Jitter == 0 {
+			k = "profile-swap-jitter-0-not-applied"
+		}
+		out.Fail(fmt.Sprintf("after a Profile swap the jitter in force is %d, the Profile configures %d", cc.got.Jitter, wantJ), k, desc)
+	}
+	// ... and with a configured jitter of 0 the delay is exactly the configured sleep
+	if wantJ == 0 && delay != wantSleep {
+		out.Fail(fmt.Sprintf("the configured jitter is 0 and the configured sleep %d ns, but the delay chosen after the Profile swap is %d ns", wantSleep, delay),
+			"profile-swap-jitter-0-delay-not-the-sleep", desc)
+	}
+	if pv.KillSet {
+		if (pv.Kill == nil) != (cc.got.Kill == nil) || (pv.Kill != nil && *pv.Kill != *cc.got.Kill) {
+			out.Fail("after a Profile swap the kill date in force is not the Profile's", "profile-swap-kill-not-applied", desc)
+		}
+	}
+	if pv.WorkSet {
+		w := pv.Work.wh()
+		if w.Empty() != (cc.got.Work == nil) || (!w.Empty() && *cc.got.Work != pv.Work) {
+			out.Fail("after a Profile swap the work hours in force are not the Profile's", "profile-swap-workhours-not-applied", desc)
+		}
+	}
+	out.Add(fmt.Sprintf("CSwap %s %s %s 0 %s 0 %s", cc.old.coq(), pv.coq(), cc.got.coq(), vh.Z(d), vh.Z(delay)), class,
+		cc.old.Jitter != cc.got.Jitter || cc.old.Sleep != cc.got.Sleep || pv.KillSet || pv.WorkSet, desc)
+}
+
+func runSwap() {
+	t0 := int64(2*86400+10*3600) * 1000000000 // Tuesday 10:00:00
+	s40, s60 := 40*msNs, 60*msNs
+	// the grid: old jitter x Profile jitter x Profile sleep
+	for _, oj := range []int{0, 1, 50, 100} {
+		for _, pj := range []int{-1, 0, 1, 100} {
+			for _, ps := range []int64{0, s40} {
+				runSwapScenario(s60, oj, nil, nil, pvalT{Sleep: ps, Jitter: pj}, t0, "swap-e2e/grid")
+			}
+		}
+	}
+	// other Jitter() answers (int8), kill date and work hours carried by the Profile
+	far := t0 + 400*dayNs
+	workday, night, emptyR := ruleT{62, 9, 0, 17, 0}, ruleT{0, 8, 30, 0, 0}, ruleT{255, 0, 0, 0, 0}
+	extra := []struct {
+		oj            int
+		okill         *int64
+		owork         *ruleT
+		pv            pvalT
+	}{
+		{100, nil, nil, pvalT{Sleep: -5, Jitter: 101}},
+		{50, nil, nil, pvalT{Sleep: s40, Jitter: 127}},
+		{50, nil, nil, pvalT{Sleep: s40, Jitter: -128}},
+		{100, nil, nil, pvalT{Sleep: msNs, Jitter: 0}},
+		{0, nil, nil, pvalT{Sleep: 3600 * 1000 * msNs, Jitter: 99}},
+		{100, nil, nil, pvalT{Sleep: s40, Jitter: 0, KillSet: true, Kill: &far}},
+		{100, &far, nil, pvalT{Sleep: 0, Jitter: -1, KillSet: true}}, // ok with the zero time: clears the date
+		{1, &far, nil, pvalT{Sleep: s40, Jitter: 0}},
+		{100, nil, nil, pvalT{Sleep: s40, Jitter: 0, WorkSet: true, Work: workday}},
+		{100, nil, &workday, pvalT{Sleep: s40, Jitter: 0, WorkSet: true, Work: emptyR}}, // Empty rule clears
+		{50, nil, &workday, pvalT{Sleep: 0, Jitter: 0, WorkSet: true, Work: night}},
+		{50, nil, &workday, pvalT{Sleep: s40, Jitter: -1}},
+	}
+	for _, e := range extra {
+		runSwapScenario(s60, e.oj, e.okill, e.owork, e.pv, t0, "swap-e2e/extra")
+	}
+	n := 0
+	if thorough {
+		n = 120
+	}
+	for i := 0; i < n; i++ {
+		pv := pvalT{Sleep: []int64{0, -1, msNs, s40, 1000 * msNs}[rng.Intn(5)], Jitter: rng.Intn(256) - 128}
+		if rng.Intn(3) == 0 {
+			pv.Jitter = []int{-1, 0, 1, 100, 101}[rng.Intn(5)]
+		}
+		runSwapScenario([]int64{msNs, s60, 1000 * msNs}[rng.Intn(3)], rng.Intn(101), nil, nil, pv, t0, "swap-e2e/random")
+	}
+}
+
 func okItems(n int) []itemT { return make([]itemT, n) }
 
 func runKill() {
-	srv := c2.NewServer(logx.NOP)
+	var slog logx.Log = logx.NOP
+	if os.Getenv("C19_DEBUG") == "2" {
+		slog = logx.Writer(os.Stderr, logx.Trace)
+	}
+	srv := c2.NewServer(slog)
 	srv.Keys.Fill()
 	l, err := srv.Listen("c19", "127.0.0.1:0", cfg.Static{L: com.TCP})
 	if err != nil {
@@ -951,6 +1249,7 @@ func runKill() {
 		}
 		runScenario(&sc, cl)
 	}
+	runSwap()
 	out.Extra("kill_e2e_scenarios", e2eRuns)
 }
 
